@@ -1,13 +1,13 @@
 (** Proofs/TrEquiv10.v — sequences_lib._clamp_transpose re-translated from its source on every run
     (Gen/Tr.v) equals the hand-written model Model/Transpose.clamp_transpose for all arguments. *)
 From Coq Require Import ZArith Bool Lia.
-From NS Require Import Gen.Tr Model.Transpose.
+From NS Require Import Base.TrTac Gen.Tr Model.Transpose.
 Local Open Scope Z_scope.
 
 Lemma tr_clamp_transpose_eq a ns_min ns_max lo hi :
   tr_clamp_transpose a ns_min ns_max lo hi = Some (clamp_transpose a ns_min ns_max lo hi).
 Proof.
-  unfold tr_clamp_transpose, clamp_transpose. destruct (a <? 0); reflexivity.
+  unfold tr_clamp_transpose, clamp_transpose. first [ solve [destruct (a <? 0); reflexivity] | tr_solve ].
 Qed.
 
 (** Melody.transpose is `for i in range(len(self)): <body on self._events[i]>`; the translation of that body
@@ -17,6 +17,7 @@ Lemma tr_melody_transpose_event_eq k lo hi e :
   tr_melody_transpose_event k lo hi e = Some (mel_event k lo hi e).
 Proof.
   unfold tr_melody_transpose_event, mel_event, MIN_MIDI_PITCH, NOTES_PER_OCTAVE.
-  rewrite Z.geb_leb. destruct (0 <=? e); [|reflexivity]. cbn zeta.
-  destruct (e + k <? lo); [reflexivity|]. rewrite Z.geb_leb. destruct (hi <=? e + k); reflexivity.
+  first [ solve [ rewrite Z.geb_leb; destruct (0 <=? e); [|reflexivity]; cbn zeta;
+                  destruct (e + k <? lo); [reflexivity|]; rewrite Z.geb_leb; destruct (hi <=? e + k); reflexivity ]
+        | tr_solve ].
 Qed.
